@@ -170,6 +170,14 @@ impl Subscriber for Recorder {
             ev: &mut ev,
             keep_payload: self.keep_payload,
         });
+        // "step N" is emitted at the top of every Sim::step: keep the harness
+        // step counter in sync even when the simulation is driven by Sim::run
+        if let Some(n) = ev.msg.strip_prefix("step ") {
+            if let Ok(n) = n.trim().parse::<u64>() {
+                set_step(n);
+                ev.step = n;
+            }
+        }
         inner.events.push(ev);
     }
     fn enter(&self, span: &Id) {
